@@ -992,6 +992,27 @@ pub fn gen_c16(thorough: bool, seed: u64) -> Vec<Episode> {
         }
         eps.push(ep(n, ops));
     }
+    // Display called with formatter flags (width, alignment, sign, zero padding, alternate): whatever is printed must
+    // still read as the same formula (blanks may surround it, not split its tokens)
+    for round in 0..(if thorough { 12 } else { 4 }) {
+        let n = 11 + round % 2;
+        let c = random_cube(&mut r, n, 3);
+        let c2 = (c.0 | (1 << (n - 1)), c.1 & !(1 << (n - 1)));
+        let cl: Vec<(usize, usize)> = (0..3).map(|_| random_cube(&mut r, n, 3)).collect();
+        let mut ops = vec![
+            mk_cube(0, c2.0, c2.1),
+            mk_ecube(1, r.gen_range(1..dom(n)) | (1 << (n - 1)), r.gen()),
+            sop_mk(2, n, &cl, "sop"),
+            sop_mk(3, n, &cl, "esop"),
+            json!({"op": "t_mk", "k": "soes", "c": "from_cubes", "d": 4, "n": n, "cubes": [ecube_json(r.gen_range(1..dom(n)), true), ecube_json(r.gen_range(1..dom(n)), false)]}),
+        ];
+        for a in 0..5 {
+            for fl in ["w8", "right", "center", "plus", "zero", "alt"] {
+                ops.push(json!({"op": "t_text", "a": a, "n": n, "fmt": fl}));
+            }
+        }
+        eps.push(ep(n, ops));
+    }
     eps
 }
 
@@ -1205,6 +1226,57 @@ pub fn gen_c18(thorough: bool, seed: u64) -> Vec<Episode> {
                 push(&mut eps, n, fs.clone(), "sop", t);
                 if k % 2 == 0 {
                     push(&mut eps, n, fs, "sopes", t);
+                }
+            }
+        }
+    }
+    // outputs whose implicants include the XOR of a variable set in one output and the XNOR of the same set in
+    // another (Sopes: the two exclusive cubes are different terms, each paid for)
+    {
+        let mut k = 0usize;
+        for n in [2usize, 3] {
+            for sset in 1..dom(n) {
+                if (sset as u32).count_ones() < 2 {
+                    continue;
+                }
+                let par = |m: usize| ((m & sset) as u32).count_ones() % 2 == 1;
+                let xor_on: Vec<usize> = (0..dom(n)).filter(|&m| par(m)).collect();
+                let xnor_on: Vec<usize> = (0..dom(n)).filter(|&m| !par(m)).collect();
+                // one output contains the XOR of S as an implicant it does not need (XOR of S minus v, OR the literal of
+                // v), the other output is the XNOR of S - and the same with the polarities exchanged
+                for v in 0..n {
+                    if (sset >> v) & 1 == 0 {
+                        continue;
+                    }
+                    let tset = sset & !(1 << v);
+                    let part = |m: usize| ((m & tset) as u32).count_ones() % 2 == 1;
+                    for pol in [true, false] {
+                        k += 1;
+                        let f1: Vec<usize> = (0..dom(n)).filter(|&m| part(m) || ((m >> v) & 1 == 1) == pol).collect();
+                        let f2: Vec<usize> = if pol { xnor_on.clone() } else { xor_on.clone() };
+                        for t in [(1, 3, 1), (1, 2, 1), (2, 3, 1)] {
+                            if !thorough && (k + t.1 as usize) % 2 == 0 {
+                                continue;
+                            }
+                            push(&mut eps, n, vec![f1.clone(), f2.clone()], "sopes", t);
+                        }
+                    }
+                }
+                for extra in 0..(if thorough { 4 } else { 2 }) {
+                    k += 1;
+                    // the XOR output gets one more minterm, the XNOR output loses one (so the plain pair is not the whole story)
+                    let mut f1 = xor_on.clone();
+                    let add = xnor_on[(k + extra) % xnor_on.len()];
+                    if extra % 2 == 1 {
+                        f1.push(add);
+                        f1.sort();
+                    }
+                    let f2: Vec<usize> = if extra >= 2 { xnor_on.iter().cloned().filter(|&m| m != add).collect() } else { xnor_on.clone() };
+                    let t = [(1, 3, 1), (1, 2, 1), (2, 3, 1), (1, 1, 1)][k % 4];
+                    push(&mut eps, n, vec![f1.clone(), f2.clone()], "sopes", t);
+                    if n == 2 {
+                        push(&mut eps, n, vec![f1, f2, vec![1usize]], "sopes", t);
+                    }
                 }
             }
         }
